@@ -334,6 +334,16 @@ def r_negative_use(ck: Checker) -> None:
 
 
 def r_transform_args(ck: Checker) -> None:
+    # whatever inline_literal hands back went through transform_args: the helper's own variables are renamed away from
+    # those of the using statement also when the head arguments are passed under their own names
+    il = ck.func(f"{CLS}.inline_literal")
+    itl = ck.interp(il)
+    for r_, st_ in itl.returns:
+        if r_.value is None:
+            continue
+        txt = itl.text(r_.value, st_)
+        ck.add("every literal unfolded by inline_literal went through transform_args", "transform_args(" in txt, il, r_, f"`{short(unparse(r_), 60)}` = `{short(txt, 110)}`",
+               "`total(A,S)` used with exactly the head's variable names: a fast path that returns the helper body as it is lets the local I of its aggregate be captured by a global I of the using rule")
     func = ck.func(f"{CLS}.transform_args")
     tr = ck.prg.funcs.get(func.qualname + ".<locals>.trans")
     ck.need(tr is not None, "transform_args renames through a local function")
@@ -408,7 +418,7 @@ RULES = [
     Rule("C15.fresh-dependency", P, r_fresh_dependency),
     Rule("C15.A.is-single", P, r_is_single),
     Rule("C15.A.anonymous-use", P, r_anonymous_use),
-    Rule("C15.uses", P, r_rule_dependency, extra={**{p_: ("every defining",) for p_ in ("C12", "C13", "C09", "C06", "C02")}, "C07": ("the single user is a rule or an objective",)}),
+    Rule("C15.uses", P, r_rule_dependency, extra={**{p_: ("every defining",) for p_ in ("C12", "C13", "C09", "C06", "C02", "C07")}, "C07": ("the single user is a rule or an objective", "every defining")}),
     Rule("C15.TABLE.good", PG, r_good_table),
     Rule("C15.G6.padding", PG + ("C15",), r_padding),
     Rule("C15.G.inline-minimize", PG, r_inline_minimize),
